@@ -2,6 +2,7 @@ import RbV.Ref.BS
 import RbV.Model.LFMapping
 import RbV.Model.LFSortedCheck
 import RbV.Model.SampledSA
+import RbV.Model.SampleBuild
 /-!
 # C05 — FM-index backward search returns exactly the pattern's occurrences
 
@@ -216,6 +217,25 @@ example : (List.range 8).map (fun i => SampledModel.get 3 (LF.bwtOf [3, 1, 4, 4,
       (LF.occRef (LF.bwtOf [3, 1, 4, 4, 1, 2, 1, 0] [7, 6, 4, 1, 5, 0, 3, 2]))
       (fun q => [7, 6, 4, 1, 5, 0, 3, 2].getD (q * 3) 0) (fun _ => 0) 8 i)
     = [7, 6, 4, 1, 5, 0, 3, 2].map some := by decide
+
+/-- … and with the stored data produced by the mirror model of `SuffixArray::sample` itself (`SampledModel.build`:
+`sample` vector and `extra_rows` map after the construction loop) no hypothesis about the stored values is left:
+construction followed by `get` returns `sa[index]` for every row, every sampling rate `s ≥ 1`, on every array
+passing `sortedAllB` -/
+theorem sampled_array_correct (t sa : List Nat) (s : Nat) (hs : 0 < s)
+    (hsorted : LF.sortedAllB t sa = true) (index : Nat) (hi : index < sa.length) :
+    SampledModel.get s (LF.bwtOf t sa) (t.getD (t.length - 1) 0) (LF.lessRef (LF.bwtOf t sa))
+      (LF.occRef (LF.bwtOf t sa))
+      (SampledModel.sampleGet (SampledModel.build sa (LF.bwtOf t sa) s (t.getD (t.length - 1) 0) sa.length).1)
+      (SampledModel.extraGet (SampledModel.build sa (LF.bwtOf t sa) s (t.getD (t.length - 1) 0) sa.length).2)
+      sa.length index = some (sa.getD index 0) :=
+  sampled_get_correct t sa s _ _ hsorted
+    (fun pos hpos hm => SampledModel.build_sample sa _ s _ hs sa.length pos hpos hm)
+    (fun pos hpos hm hb => SampledModel.build_extra sa _ s _ sa.length pos hpos hm hb)
+    index hi
+
+-- two sequences "A$A$" (A=1, $=0), sampling rate 2: row 1 is not sampled and its BWT symbol is the sentinel → extra row
+example : SampledModel.build [3, 1, 2, 0] (LF.bwtOf [1, 0, 1, 0] [3, 1, 2, 0]) 2 0 4 = ([3, 2], [(3, 0)]) := by decide
 
 /-- … hence accepted by the oracle: on a sorted index the checker and the mirror model agree -/
 theorem model_accepted (t sa pat : List Nat) (hp : pat ≠ []) (hn : 0 < t.length)
